@@ -112,8 +112,22 @@ type workerState struct {
 	input atomic.Value // string
 }
 
-// hangLimit: a single case takes microseconds; a worker that stays on one case this long is hung.
-const hangLimit = 20 * time.Second
+// hangLimit: a single case takes microseconds (>= 10^6 times less); a worker that stays on one case this
+// long is hung.  If the machine is overloaded at that moment (1-minute load average above the number of
+// CPUs) the observation is not trusted: the harness exits 4 and the engine reports INCONCLUSIVE.
+const hangLimit = 60 * time.Second
+
+func overloaded() bool {
+	b, err := os.ReadFile("/proc/loadavg")
+	if err != nil {
+		return false
+	}
+	var l1 float64
+	if _, err := fmt.Sscan(string(b), &l1); err != nil {
+		return false
+	}
+	return l1 > float64(runtime.NumCPU())
+}
 
 // forEachLine runs f(idx, line) on every stdin line using nw workers.  setInput lets f publish a
 // rendering of the input it is about to run so that the watchdog can report it.  If a worker is
@@ -158,6 +172,11 @@ func forEachLine(f func(idx int, line []byte, ws *workerState), onHang func(idx 
 				for _, ws := range states {
 					s := ws.since.Load()
 					if s != 0 && time.Duration(now-s) > hangLimit {
+						if overloaded() {
+							hlib.Flush()
+							fmt.Fprintf(os.Stderr, "case %d did not finish within %s but the machine is overloaded: not judged\n", ws.idx.Load(), hangLimit)
+							os.Exit(4)
+						}
 						onHang(int(ws.idx.Load()), ws.input.Load().(string))
 						hlib.Flush()
 						os.Exit(0)
